@@ -79,6 +79,11 @@ func (e *Engine) initSummaries(fs []*ssa.Function) {
 						add(fmt.Sprintf("<=len(p%d)", pi), func(e callEnv) Lin { return le(e.ret(ri), e.argLen(pi)) })
 						add(fmt.Sprintf("<len(p%d)", pi), func(e callEnv) Lin { return lt(e.ret(ri), e.argLen(pi)) })
 					}
+					if bits, uns := intWidthOK(p.Type()); bits && !uns && intSame(p.Type(), rt) {
+						add(fmt.Sprintf(">=p%d", pi), func(e callEnv) Lin { return le(e.arg(pi), e.ret(ri)) })
+						add(fmt.Sprintf(">=p%d+1", pi), func(e callEnv) Lin { return lt(e.arg(pi), e.ret(ri)) })
+						add(fmt.Sprintf("<=p%d", pi), func(e callEnv) Lin { return le(e.ret(ri), e.arg(pi)) })
+					}
 				}
 			} else if isSliceOrStr(rt) {
 				for pi, p := range f.Params {
@@ -89,10 +94,24 @@ func (e *Engine) initSummaries(fs []*ssa.Function) {
 				}
 			}
 		}
-		if res.Len() == 1 {
-			if bt, ok := res.At(0).Type().Underlying().(*types.Basic); ok && bt.Kind() == types.Bool {
+		for bk := 0; bk < res.Len(); bk++ {
+			bk := bk
+			if bt, ok := res.At(bk).Type().Underlying().(*types.Basic); ok && bt.Kind() == types.Bool {
 				addT := func(desc string, mk func(e callEnv) Lin) {
-					sum.truePost = append(sum.truePost, &sumCand{desc: "true => " + desc, res: 0, mk: mk, ok: true})
+					sum.truePost = append(sum.truePost, &sumCand{desc: fmt.Sprintf("r%d true => %s", bk, desc), res: bk, mk: mk, ok: true})
+				}
+				// other int results against the slice parameters
+				for ri := 0; ri < res.Len(); ri++ {
+					ri := ri
+					if ri == bk || !isInt(res.At(ri).Type()) {
+						continue
+					}
+					for pi, p := range f.Params {
+						pi := pi
+						if isSliceOrStr(p.Type()) {
+							addT(fmt.Sprintf("r%d<len(p%d)", ri, pi), func(e callEnv) Lin { return lt(e.ret(ri), e.argLen(pi)) })
+						}
+					}
 				}
 				for pi, p := range f.Params {
 					pi := pi
@@ -127,8 +146,103 @@ func (e *Engine) initSummaries(fs []*ssa.Function) {
 				}
 			}
 		}
+		if e.knownCallers(f) {
+			addP := func(desc string, mk func(e callEnv) Lin) {
+				sum.pre = append(sum.pre, &sumCand{desc: "pre " + desc, mk: mk, ok: true})
+			}
+			for pi, p := range f.Params {
+				pi := pi
+				if bits, uns := intWidthOK(p.Type()); bits && !uns {
+					addP(fmt.Sprintf("p%d>=0", pi), func(e callEnv) Lin { return le(konst(0), e.arg(pi)) })
+					for pj, q := range f.Params {
+						pj := pj
+						if isSliceOrStr(q.Type()) {
+							addP(fmt.Sprintf("p%d<=len(p%d)", pi, pj), func(e callEnv) Lin { return le(e.arg(pi), e.argLen(pj)) })
+							addP(fmt.Sprintf("p%d<len(p%d)", pi, pj), func(e callEnv) Lin { return lt(e.arg(pi), e.argLen(pj)) })
+						}
+					}
+				}
+				if isSliceOrStr(p.Type()) {
+					for _, k := range []int64{1, 2, 3, 4} {
+						k := k
+						addP(fmt.Sprintf("len(p%d)>=%d", pi, k), func(e callEnv) Lin { return le(konst(k), e.argLen(pi)) })
+					}
+				}
+			}
+		}
 		e.sums[f] = sum
 	}
+}
+
+// intWidthOK: t is a full-width integer type (int, int64, uint, uint64) whose arithmetic the linear forms model.
+func intWidthOK(t types.Type) (ok bool, unsigned bool) {
+	if !isInt(t) {
+		return false, false
+	}
+	bits, uns := intWidth(t)
+	return bits == 64, uns
+}
+
+func intSame(a, b types.Type) bool {
+	if !isInt(a) || !isInt(b) {
+		return false
+	}
+	ab, au := intWidth(a)
+	bb, bu := intWidth(b)
+	return ab == bb && au == bu
+}
+
+// knownCallers: every call of f is a static call inside the module: f is not
+// exported, never used as a value, is not a method that an interface call
+// could reach, and has at least one caller.
+func (e *Engine) knownCallers(f *ssa.Function) bool {
+	if e.valueUse[f] || len(e.callers[f]) == 0 || f.Synthetic != "" {
+		return false
+	}
+	obj := f.Object()
+	if obj == nil {
+		return false // anonymous function
+	}
+	if obj.Exported() {
+		return false
+	}
+	if f.Signature.Recv() != nil && e.invoked[f.Name()] {
+		return false
+	}
+	return true
+}
+
+// checkPre proves every surviving precondition candidate at every call site; returns true if any was dropped.
+func (e *Engine) checkPre(fs []*ssa.Function) bool {
+	dropped := false
+	for _, f := range fs {
+		sum := e.sums[f]
+		if sum == nil || len(sum.pre) == 0 {
+			continue
+		}
+		for _, c := range e.callers[f] {
+			g := c.Parent()
+			s := e.fn(g)
+			b := c.Block()
+			idx := 0
+			for i, in := range b.Instrs {
+				if in == ssa.Instruction(c) {
+					idx = i
+				}
+			}
+			facts, dq := s.factsAt(b, idx)
+			env := s.callEnvAt(c, func(int) Lin { return konst(0) })
+			s.noSplit = c
+			for _, cand := range sum.pre {
+				if cand.ok && !s.entails(facts, dq, cand.mk(env)) {
+					cand.ok = false
+					dropped = true
+				}
+			}
+			s.noSplit = nil
+		}
+	}
+	return dropped
 }
 
 // checkSummaries re-verifies every surviving candidate; returns true if any was dropped.
@@ -141,20 +255,37 @@ func (e *Engine) checkSummaries(fs []*ssa.Function) bool {
 		}
 		s := e.fn(f)
 		if len(sum.truePost) > 0 {
-			env := callEnv{
-				arg:    func(i int) Lin { return s.canon(f.Params[i]) },
-				argLen: func(i int) Lin { return s.lenOf(f.Params[i]) },
-			}
 			for _, b := range f.Blocks {
 				r, ok := b.Instrs[len(b.Instrs)-1].(*ssa.Return)
 				if !ok {
 					continue
 				}
-				for _, ctx := range s.trueContexts(b, r.Results[0]) {
-					for _, c := range sum.truePost {
-						if c.ok && !s.entails(ctx.fs, ctx.dq, c.mk(env)) {
+				env := callEnv{
+					ret: func(i int) Lin {
+						v := r.Results[i]
+						if isInt(v.Type()) {
+							return s.canon(v)
+						}
+						return s.lenOf(v)
+					},
+					arg:    func(i int) Lin { return s.canon(f.Params[i]) },
+					argLen: func(i int) Lin { return s.lenOf(f.Params[i]) },
+				}
+				ctxs := map[int][]factCtx{}
+				for _, c := range sum.truePost {
+					if !c.ok {
+						continue
+					}
+					cs, done := ctxs[c.res]
+					if !done {
+						cs = s.trueContexts(b, r.Results[c.res])
+						ctxs[c.res] = cs
+					}
+					for _, ctx := range cs {
+						if !s.entails(ctx.fs, ctx.dq, c.mk(env)) {
 							c.ok = false
 							dropped = true
+							break
 						}
 					}
 				}
@@ -376,6 +507,7 @@ func Run(prog *ssa.Program, inMod func(*ssa.Function) bool) *Result {
 		callers: map[*ssa.Function][]*ssa.Call{}, valueUse: map[*ssa.Function]bool{}, pure: map[*ssa.Function]int{},
 		cases: map[*ssa.Function][]retCase{}}
 	e.inMod = inMod
+	e.invoked = map[string]bool{}
 	fs := e.modFuncs()
 	var withInit []*ssa.Function
 	for f := range ssautil.AllFunctions(prog) {
@@ -391,6 +523,17 @@ func Run(prog *ssa.Program, inMod func(*ssa.Function) bool) *Result {
 						e.callers[g] = append(e.callers[g], c)
 					}
 				}
+				if ci, ok := in.(ssa.CallInstruction); ok {
+					if ci.Common().IsInvoke() {
+						e.invoked[ci.Common().Method.Name()] = true
+					}
+					if _, isCall := in.(*ssa.Call); !isCall {
+						// go / defer of a static callee: a call site whose facts are not modelled
+						if g := ci.Common().StaticCallee(); g != nil {
+							e.valueUse[g] = true
+						}
+					}
+				}
 				for _, op := range in.Operands(nil) {
 					if g, ok := (*op).(*ssa.Function); ok {
 						if c, isCall := in.(*ssa.Call); isCall && c.Call.Value == ssa.Value(g) {
@@ -403,10 +546,14 @@ func Run(prog *ssa.Program, inMod func(*ssa.Function) bool) *Result {
 		}
 	}
 	e.initSummaries(fs)
-	for iter := 0; iter < 10; iter++ {
+	// greatest fixpoint: candidates are only ever dropped, so this terminates; every survivor was
+	// re-proved in the last round under exactly the surviving set
+	for {
 		e.fns = map[*ssa.Function]*Fn{}
 		e.cases = map[*ssa.Function][]retCase{}
-		if !e.checkSummaries(fs) {
+		d1 := e.checkSummaries(fs)
+		d2 := e.checkPre(fs)
+		if !d1 && !d2 {
 			break
 		}
 	}
@@ -544,8 +691,8 @@ func Run(prog *ssa.Program, inMod func(*ssa.Function) bool) *Result {
 // ---- termination: ranking functions for non-range loops ----
 
 type loopInfo struct {
-	header *ssa.BasicBlock
-	blocks map[*ssa.BasicBlock]bool
+	header  *ssa.BasicBlock
+	blocks  map[*ssa.BasicBlock]bool
 	latches []*ssa.BasicBlock
 }
 
